@@ -103,6 +103,7 @@ def build(target_props, clean=False):
     # models first (proof-free files): they must be runnable by the
     # correspondence / search steps even when a proof no longer checks
     models = sorted(os.path.relpath(p, COQ)[:-2] + '.vo' for p in
+                    glob.glob(os.path.join(COQ, 'Gen', '*.v')) +
                     glob.glob(os.path.join(COQ, 'Model', '*.v')) +
                     glob.glob(os.path.join(COQ, 'Spec', '*.v')))
     sh(['timeout', '1500', 'make', '-k', '-j12'] + models, cwd=COQ, timeout=1600)
